@@ -41,6 +41,7 @@ type encWalker struct {
 	detOK []string
 	// closure for map entries
 	closures map[types.Object]*ast.FuncLit
+	lenOf    map[types.Object]string // scratch locals holding len(S): local -> term of S
 }
 
 func (w *encWalker) isIdent(x ast.Expr, o types.Object) bool {
@@ -185,12 +186,86 @@ func (w *encWalker) stmts(list []ast.Stmt, out *wout, baseMark func() (Poly, boo
 			}
 			return und("statement %s", nodeStr(s))
 		case *ast.AssignStmt:
+			// scratch length: l = len(S) (the length of a payload evaluated once)
+			if (t.Tok == token.ASSIGN || t.Tok == token.DEFINE) && len(t.Lhs) == 1 && len(t.Rhs) == 1 {
+				if id, ok := t.Lhs[0].(*ast.Ident); ok && !w.isIdent(id, w.iVar) && id.Name != "_" {
+					if call, ok := ast.Unparen(t.Rhs[0]).(*ast.CallExpr); ok && len(call.Args) == 1 {
+						if b, ok := core.CalleeObj(info, call).(*types.Builtin); ok && b.Name() == "len" && basicKind(info.TypeOf(id)) == types.Int {
+							src, err := w.e.term(call.Args[0])
+							if err != nil {
+								return err
+							}
+							if w.lenOf == nil {
+								w.lenOf = map[types.Object]string{}
+							}
+							o := info.ObjectOf(id)
+							w.lenOf[o] = src
+							w.polys[o] = pAtom("len(" + src + ")")
+							continue
+						}
+					}
+				}
+			}
 			// i -= X
 			if t.Tok == token.SUB_ASSIGN && len(t.Lhs) == 1 && w.isIdent(t.Lhs[0], w.iVar) {
 				if i+1 >= len(list) {
 					return und("i -= … without a following write")
 				}
 				nx := list[i+1]
+				// i -= k; dAtA[i] = c0; dAtA[i+1] = c1; … : k constant bytes (a multi-byte tag written in one step)
+				if k, ok := constInt(info, t.Rhs[0]); ok && k >= 1 && k <= 10 && i+int(k) < len(list) {
+					var bs []byte
+					for j := int64(0); j < k; j++ {
+						as, ok := list[i+1+int(j)].(*ast.AssignStmt)
+						if !ok || as.Tok != token.ASSIGN || len(as.Lhs) != 1 || len(as.Rhs) != 1 {
+							break
+						}
+						ie, ok := ast.Unparen(as.Lhs[0]).(*ast.IndexExpr)
+						if !ok || !w.isIdent(ie.X, w.buf) {
+							break
+						}
+						okIdx := false
+						if j == 0 && w.isIdent(ie.Index, w.iVar) {
+							okIdx = true
+						} else if be, ok := ast.Unparen(ie.Index).(*ast.BinaryExpr); ok && be.Op == token.ADD && w.isIdent(be.X, w.iVar) {
+							if off, ok := constInt(info, be.Y); ok && off == j {
+								okIdx = true
+							}
+						}
+						c, isC := constInt(info, as.Rhs[0])
+						if !okIdx || !isC || c < 0 || c > 255 {
+							break
+						}
+						bs = append(bs, byte(c))
+					}
+					if int64(len(bs)) == k {
+						out.prepend(WTag{bs})
+						i += int(k)
+						continue
+					}
+				}
+				// i -= l with l = len(S): the same as i -= len(S)
+				if id, ok := ast.Unparen(t.Rhs[0]).(*ast.Ident); ok {
+					if src, ok := w.lenOf[info.ObjectOf(id)]; ok {
+						if es, ok := nx.(*ast.ExprStmt); ok {
+							if c2, ok := es.X.(*ast.CallExpr); ok {
+								if b2, ok := core.CalleeObj(info, c2).(*types.Builtin); ok && b2.Name() == "copy" && len(c2.Args) == 2 && w.bufSliceAtI(c2.Args[0]) {
+									s2, err := w.e.term(c2.Args[1])
+									if err != nil {
+										return err
+									}
+									if s2 != src {
+										return fmt.Errorf("cursor moved by len(%s) but %s is copied", src, s2)
+									}
+									out.prepend(WRaw{src})
+									i++
+									continue
+								}
+							}
+						}
+						return und("i -= len(%s) is not followed by copy(dAtA[i:], %s)", src, src)
+					}
+				}
 				// fixed width
 				if k, ok := constInt(info, t.Rhs[0]); ok && (k == 4 || k == 8) {
 					if es, ok := nx.(*ast.ExprStmt); ok {
